@@ -169,6 +169,13 @@ class Env:
     def reached(self) -> None:
         self.reached_count += 1
 
+    def untraced(self):
+        """Context manager: run a block outside CrossHair's tracing (set-up code that is not the subject)."""
+        if self.symbolic:
+            return _CH.tracers.NoTracing()
+        import contextlib
+        return contextlib.nullcontext()
+
 
 def _make_symbolic(typ: type, name: str) -> Any:
     """
